@@ -93,7 +93,7 @@ CHECK_DEADLOCK FALSE
 
 def _variant(i):
     """which concretisation case number i gets (deterministic)"""
-    kinds = ('vars', 'pfx', 'rev', 'ssi', 'vars', 'lit', 'vars', 'revx', 'pfx', 'rv0', 'vars')
+    kinds = ('vars', 'pfx', 'rev', 'ssi', 'reent', 'lit', 'vars', 'revx', 'pfx', 'rv0', 'reent')
     # (listnone: not where the tag is asked to sort by the element -- None and numbers have no order)
     return kinds[i % 11], ('tuple' if i % 5 == 3 else 'listnone' if (i % 7 == 4 and kinds[i % 11] != 'revx') else 'list'), (i % 2 == 1)
 
